@@ -5,6 +5,7 @@ package tabula
 import (
 	"strconv"
 	"strings"
+	"unicode/utf8"
 
 	"github.com/tsawler/tabula/core"
 	"github.com/tsawler/tabula/reader"
@@ -461,5 +462,131 @@ func H_C03_whole_file_repeatable() {
 	n, en := Open(a).PageCount()
 	vAssert("page-count", en == nil && n == 1)
 	vObserveStr("text", t3)
+	vReach("end")
+}
+
+// H_C07_whole_file_fonts: through a whole file - font dictionaries behind references, ToUnicode CMaps in streams - codes
+// decode to the text the fonts define, and ToUnicode wins over the base encoding.
+//
+//symgo:harness prop=C07 kernel=K5-whole-file-fonts
+//symgo:desc one-page PDFs from the harness-local writer read through the file content model (natively a real temporary file); the page's font is enumerated: Type1 with WinAnsiEncoding, Type1 with MacRomanEncoding, TrueType with WinAnsiEncoding plus a ToUnicode CMap (bfchar + bfrange, entries on separate lines or on one line) that remaps some codes, or Type0 / Identity-H with a CIDFontType2 descendant and a 2-byte ToUnicode CMap whose targets include a supplementary-plane character; the content shows a string of those codes (literal or hex string, enumerated); cross-reference kind enumerated: Text() contains exactly the text the font defines for the codes, in order
+func H_C07_whole_file_fonts() {
+	xs := vAnyIntIn(0, 1) == 1
+	kind := vAnyIntIn(0, 3)
+	hexStr := vAnyIntIn(0, 1) == 1
+	nl := "\n"
+	if vAnyIntIn(0, 1) == 1 {
+		nl = " "
+	}
+	w := &vPDFWriter{eol: "\n", offsets: map[int]int{}}
+	if xs {
+		w.packed = map[int]string{}
+	}
+	w.write("%PDF-1.5\n")
+	w.obj(1, "<< /Type /Catalog /Pages 2 0 R >>")
+	w.obj(2, "<< /Type /Pages /Kids [3 0 R] /Count 1 /MediaBox [0 0 612 792] >>")
+	w.obj(3, "<< /Type /Page /Parent 2 0 R /Resources << /Font << /F1 4 0 R >> >> /Contents 5 0 R >>")
+	nums := []int{1, 2, 3, 4, 5}
+	var codes []byte
+	want := ""
+	cmapHead := "/CIDInit /ProcSet findresource begin" + nl + "12 dict begin" + nl + "begincmap" + nl + "/CMapName /Adobe-Identity-UCS def" + nl + "/CMapType 2 def" + nl
+	switch kind {
+	case 0:
+		w.obj(4, "<< /Type /Font /Subtype /Type1 /BaseFont /Helvetica /Encoding /WinAnsiEncoding >>")
+		codes, want = []byte{'c', 'a', 'f', 0xE9, ' ', 0x80, '5'}, "café €5"
+	case 1:
+		w.obj(4, "<< /Type /Font /Subtype /Type1 /BaseFont /Times-Roman /Encoding /MacRomanEncoding >>")
+		codes, want = []byte{'c', 'a', 'f', 0x8E, ' ', 0xA5, 'x'}, "café •x"
+	case 2:
+		w.obj(4, "<< /Type /Font /Subtype /TrueType /BaseFont /ABCDEF+Custom /Encoding /WinAnsiEncoding /ToUnicode 6 0 R >>")
+		cm := cmapHead + "1 begincodespacerange" + nl + "<00> <FF>" + nl + "endcodespacerange" + nl + "1 beginbfchar" + nl + "<41> <03A9>" + nl + "endbfchar" + nl + "1 beginbfrange" + nl + "<61> <63> <0430>" + nl + "endbfrange" + nl + "endcmap" + nl + "end end"
+		w.stream(6, "/Length "+strconv.Itoa(len(cm)), cm)
+		nums = append(nums, 6)
+		codes, want = []byte{'A', 'a', 'b', 'c'}, "Ωабв"
+	default:
+		w.obj(4, "<< /Type /Font /Subtype /Type0 /BaseFont /ABCDEF+CJK /Encoding /Identity-H /DescendantFonts [7 0 R] /ToUnicode 6 0 R >>")
+		w.obj(7, "<< /Type /Font /Subtype /CIDFontType2 /BaseFont /ABCDEF+CJK /CIDSystemInfo << /Registry (Adobe) /Ordering (Identity) /Supplement 0 >> /DW 1000 >>")
+		cm := cmapHead + "1 begincodespacerange" + nl + "<0000> <FFFF>" + nl + "endcodespacerange" + nl + "2 beginbfchar" + nl + "<0003> <65E5>" + nl + "<0004> <D83DDE00>" + nl + "endbfchar" + nl + "1 beginbfrange" + nl + "<0010> <0012> <3042>" + nl + "endbfrange" + nl + "endcmap" + nl + "end end"
+		w.stream(6, "/Length "+strconv.Itoa(len(cm)), cm)
+		nums = append(nums, 6, 7)
+		codes, want = []byte{0, 3, 0, 0x10, 0, 0x12, 0, 4}, "日あい\U0001F600"
+	}
+	str := "("
+	if hexStr {
+		str = "<" + vHexEncode(string(codes)) + ">"
+	} else {
+		for _, c := range codes {
+			switch {
+			case c == '(' || c == ')' || c == '\\':
+				str += "\\" + string([]byte{c})
+			case c < 32 || c > 126:
+				str += "\\" + string([]byte{'0' + c>>6, '0' + (c>>3)&7, '0' + c&7})
+			default:
+				str += string([]byte{c})
+			}
+		}
+		str += ")"
+	}
+	data := "BT /F1 12 Tf 72 720 Td " + str + " Tj ET"
+	w.stream(5, "/Length "+strconv.Itoa(len(data)), data)
+	w.xref(xs, xs, -1, nums, nil, 8, 9, 10)
+	name := "/tmp/symgo-replay-c07.pdf"
+	vFileContent(name, string(w.buf))
+	txt, _, err := Open(name).Text()
+	vAssert("text-no-error", err == nil)
+	vObserveStr("text", txt)
+	vAssert("codes-decode-to-the-fonts-text", strings.Contains(txt, want))
+	vAssert("valid-utf8", utf8.ValidString(txt))
+	vReach("end")
+}
+
+// H_C10_whole_file_handles: after any terminal operation on a PDF - successful or failed - no file handle remains open.
+//
+//symgo:harness prop=C10 kernel=K5-handles-after-terminal-operations noreplay=1
+//symgo:desc file content and file-handle model (os.Open hands out a handle that counts as open until Close); file enumerated: a valid one-page PDF, a file with a valid header but no cross-reference data, a file that is not a PDF, an empty file; operation enumerated: Text, ToMarkdown, Fragments, Lines, Paragraphs, Document, Chunks, Text on a page number outside the document, or the non-terminal PageCount; optionally a second operation on the same extractor value: after each terminal operation returns, and in any case after Close, the number of open handles is zero
+func H_C10_whole_file_handles() {
+	name := "/tmp/symgo-replay-c10.pdf"
+	switch vAnyIntIn(0, 3) {
+	case 0:
+		vFileContent(name, vSmallPDF("Hello", false, vAnyIntIn(0, 1) == 1))
+	case 1:
+		vFileContent(name, "%PDF-1.5\n1 0 obj\n<< /Type /Catalog >>\nendobj\n")
+	case 2:
+		vFileContent(name, "PK\x03\x04 this is not a pdf at all")
+	default:
+		vFileContent(name, "")
+	}
+	e := Open(name)
+	run := func(op int) {
+		switch op {
+		case 0:
+			_, _, _ = e.Text()
+		case 1:
+			_, _, _ = e.ToMarkdown()
+		case 2:
+			_, _ = e.PageCount()
+		case 3:
+			_, _, _ = e.Fragments()
+		case 4:
+			_, _ = e.Lines()
+		case 5:
+			_, _ = e.Paragraphs()
+		case 6:
+			_, _, _ = e.Document()
+		case 7:
+			_, _, _ = e.Chunks()
+		default:
+			_, _, _ = e.Pages(7).Text()
+		}
+		if op != 2 { // PageCount is documented as non-terminal: it keeps the reader for further calls until Close
+			vAssert("no-handle-left-open-after-terminal-operation", vOpenFiles() == 0)
+		}
+	}
+	run(vAnyIntIn(0, 8))
+	if vAnyIntIn(0, 1) == 1 {
+		run(vAnyIntIn(0, 2))
+	}
+	_ = e.Close()
+	vAssert("no-handle-left-open-after-close", vOpenFiles() == 0)
 	vReach("end")
 }
